@@ -14,10 +14,10 @@ package encoder
 //@ spec canonUint(t, s, c, v) := s < c && c - s <= 20 && digitsAt(t, s, c) && (t[s] == '0' ==> c == s+1) && decvalN(t[s:c], c - s) == v
 
 // every entry of the two-digit table is the ASCII pair of its index, low byte first
-//@ tablelemma[C16] intLELookup(j, v) := v % 256 == 48 + j / 10 && v / 256 == 48 + j % 10
+//@ tablelemma[C16,C04] intLELookup(j, v) := v % 256 == 48 + j / 10 && v / 256 == 48 + j % 10
 
 //@ func numMask(numBitSize) (r)
-//@   props C16
+//@   props C16 C04
 //@   requires bitSizeOK(numBitSize)
 //@   ensures r == pow2(numBitSize) - 1
 //@   assigns nothing
@@ -26,28 +26,31 @@ package encoder
 //@ spec signedOf(u, w) := u >= pow2(w-1) ? u - pow2(w) : u
 
 //@ func AppendUint(ctx, out, p, code) (res)
-//@   props C16
+//@   props C16 C04
 //@   requires code != nil && bitSizeOK(code.NumBitSize) && endianness == 0
 //@   requires region(p, code.NumBitSize / 8)
 //@   let x := wordAtW(p, code.NumBitSize)
 //@   ensures len(res) > len(out) && len(res) - len(out) <= 20
 //@   ensures old(x) < 100 ==> canonUint(res, len(out), len(res), old(x))
 //@   ensures old(x) < 100 ==> forall k :: 0 <= k && k < len(out) ==> res[k] == old(out[k])
-//@   ensures[unverified] old(x) >= 100 ==> canonUint(res, len(out), len(res), old(x))
-//@   ensures[unverified] old(x) >= 100 ==> forall k :: 0 <= k && k < len(out) ==> res[k] == old(out[k])
+//@   ensures old(x) >= 100 ==> canonUint(res, len(out), len(res), old(x))
+//@   ensures old(x) >= 100 ==> forall k :: 0 <= k && k < len(out) ==> res[k] == old(out[k])
 //@   assigns M
+//@   nomerge
 //@   loop 1: unroll 9 split
 
 //@ func AppendInt(ctx, out, p, code) (res)
-//@   props C16
+//@   props C16 C04
 //@   requires code != nil && bitSizeOK(code.NumBitSize) && endianness == 0
 //@   requires region(p, code.NumBitSize / 8)
 //@   let x := signedOf(wordAtW(p, code.NumBitSize), code.NumBitSize)
 //@   ensures len(res) > len(out) && len(res) - len(out) <= 21
-//@   ensures[unverified] old(x) >= 0 ==> canonUint(res, len(out), len(res), old(x))
+//@   ensures old(x) >= 0 ==> canonUint(res, len(out), len(res), old(x))
+// (the negative case adds the two's-complement negation under the width mask in front of the same digit chain; no solver finishes it in 60 s per path)
 //@   ensures[unverified] old(x) < 0 ==> res[len(out)] == '-' && canonUint(res, len(out)+1, len(res), 0 - old(x))
-//@   ensures[unverified] forall k :: 0 <= k && k < len(out) ==> res[k] == old(out[k])
+//@   ensures forall k :: 0 <= k && k < len(out) ==> res[k] == old(out[k])
 //@   assigns M
+//@   nomerge
 //@   loop 1: unroll 9 split
 
 //@ spec ws(c) := c == 32 || c == 10 || c == 9 || c == 13
